@@ -233,3 +233,46 @@ def wrapped(base: str):
     for a, b in (("<", ">"), ("(", ")"), ('"', '"'), ("'", "'")):
         yield ("wrapped-twice", a + a + base + b + b)
         yield ("wrapped-spaced", a + " " + base + " " + b)
+
+
+# ---------------------------------------------------------------------- small fields, exhaustively
+MAIN_COMPONENTS = ("bank_code", "branch_code", "account_code", "national_checksum_digits")
+
+
+def small_field_bodies(country_obj, base: str, limit: int = 20000, dictionary_only: bool = False):
+    """For every minor component of the country (currency code, account type, account id, ... - not
+    bank / branch / account / national check digits) whose value space has at most ``limit`` members:
+    the base BBAN with that field set to EVERY value its character classes admit (with
+    ``dictionary_only``: fields of three letters only get the ISO 4217 codes pycountry knows plus the
+    26 triple letters).  Yields (label, body, (lo, hi))."""
+    import itertools
+    from ..ref import reg as _reg
+    if not country_obj.classes:
+        return
+    for name in _reg.COMPONENTS:
+        if name in MAIN_COMPONENTS:
+            continue
+        sp = country_obj.span(name)
+        if not sp:
+            continue
+        alph = [_reg.CLASS_CHARS[k] for k in country_obj.classes[sp[0]:sp[1]]]
+        size = 1
+        for a in alph:
+            size *= len(a)
+        if size > limit:
+            continue
+        if dictionary_only and size > 2000:
+            try:
+                import pycountry
+                words = sorted({c.alpha_3 for c in pycountry.currencies})
+            except Exception:  # noqa: BLE001
+                words = []
+            words += [ch * (sp[1] - sp[0]) for ch in "ABCDEFGHIJKLMNOPQRSTUVWXYZ"]
+            values = [w for w in dict.fromkeys(words) if len(w) == sp[1] - sp[0]
+                      and all(ch in a for ch, a in zip(w, alph))]
+        else:
+            values = ["".join(t) for t in itertools.product(*alph)]
+        for v in values:
+            b = base[:sp[0]] + v + base[sp[1]:]
+            if country_obj.matches(b):
+                yield (f"field:{name}", b, sp)
